@@ -8,7 +8,8 @@ M = "modelx/core/model.py"
 def register(R, P):
     R.cls("ClassObj")
     R.cls("NsHolder", fields={"fresh": "dict[str,object]"})
-    R.cls("ParentImpl", bases=("Impl",), fields={"namespace": "dict[str,object]", "_namespace": "NsHolder"},
+    R.cls("ParentImpl", bases=("Impl",), fields={"namespace": "dict[str,object]", "_namespace": "NsHolder",
+                                                 "cells": "dict[str,object]", "own_refs": "dict[str,object]", "named_spaces": "dict[str,object]"},
           doc="a model or a user space seen through its namespace: `namespace` (a property returning the refreshed chain map of cells, "
               "refs and child spaces) is modelled as a field, equal to `_namespace.fresh`")
     R.cls("SpaceGraph")
@@ -44,11 +45,22 @@ def register(R, P):
         loops={0: ["all(implies(j < _i and name in _s[j].namespace, is_instance(_s[j].namespace[name], klass)) for j in range(len(_s)))"]},
         modifies=[], alloc=True)
 
+    MEMBERS_INV = ("all(implies(k in s.cells, s.cells[k] is not None) and implies(k in s.own_refs, s.own_refs[k] is not None)"
+                   " and implies(k in s.named_spaces, s.named_spaces[k] is not None) for s in every('ParentImpl') for k in every('str'))")
+    HAS = "(name in %s.cells or name in %s.own_refs or name in %s.named_spaces)"
     R.contract(M + "::SharedSpaceOperations._find_name_in_subs",
         params={"self": "SharedSpaceOperations", "parent": "ParentImpl", "name": "str", "skip_self": "bool"}, returns="object",
-        static={"skip_self": True}, requires=[NSINV],
-        ensures=["NONE-IFF:: implies(result is None, all(name not in s.namespace for s in subs(self, parent)))",
-                 "FOUND:: implies(result is not None, any(name in s.namespace and s.namespace[name] is result for s in subs(self, parent)))"],
-        loops={0: ["all(implies(j < _i, name not in _s[j].namespace) for j in range(len(_s)))"]},
+        static={"skip_self": True}, requires=[MEMBERS_INV],
+        ensures=[
+            # C12 (J-2): the name is looked up among the MEMBERS (cells, own refs, child spaces) of every sub space, where a
+            # model-level reference of the same name cannot hide a clash
+            "NONE-IFF:: implies(result is None, all(not %s for s in subs(self, parent)))" % (HAS % ("s", "s", "s")),
+            "FOUND:: implies(result is not None, any((name in s.cells and s.cells[name] is result) or (name in s.own_refs and s.own_refs[name] is result)"
+            " or (name in s.named_spaces and s.named_spaces[name] is result) for s in subs(self, parent)))"],
+        loops={0: ["all(implies(j < _i, not %s) for j in range(len(_s)))" % (HAS % ("_s[j]", "_s[j]", "_s[j]"))],
+               1: ["all(implies(j < _i1, name not in _s1[j]) for j in range(len(_s1)))",
+                   "len(_s1) == 3 and _s1[0] is subspace.cells and _s1[1] is subspace.own_refs and _s1[2] is subspace.named_spaces",
+                   "subspace in subs(self, parent)",
+                   "all(implies(j < _i0, not %s) for j in range(len(_s0)))" % (HAS % ("_s0[j]", "_s0[j]", "_s0[j]"))]},
         modifies=[], alloc=True)
     P["_names"] = ["SharedSpaceOperations._can_add", "SharedSpaceOperations._find_name_in_subs"]
